@@ -303,6 +303,42 @@ def extra_c10_perm(prop, tier, seed):
     return res
 
 
+def extra_gen_differential(kind):
+    """Bounded stand-in (labelled, never counted), generator-driven: 6000 (thorough: 40000) generated JSON-compatible
+    schemas (scalars, literals, ranges, .size/.regexp/.lt/.ge, choices, arrays with occurrences and inline groups,
+    maps with bareword / text keys, optional members and a table, named rules, a generic rule) x 3 conforming values
+    built from the same tree + up to 6 mutants.  kind='mirror' (C04): JSON verdict == CBOR verdict.  kind='order'
+    (C10): CBOR verdict unchanged when the pairs of every map in the value are reversed."""
+    def run(prop, tier, seed):
+        n = '40000' if tier == 'thorough' else '6000'
+        out, err = _replay(['u5f', 'find', n], timeout=3000)
+        if out is None:
+            raise engine.Undecided('replay-failed', err)
+        known = set(json.load(open(os.path.join(engine.VERIF, 'known_instances_C04_gen.json'))))
+        failing = [f for f in out.get('failing', []) if f.startswith(kind + '##')]
+        new = [f for f in failing if f not in known]
+        what = 'JSON verdict == CBOR verdict' if kind == 'mirror' else 'CBOR verdict invariant under reversal of the pairs of every map'
+        res = {'violations': [], 'bounded': [{'check': 'generated schemas x conforming and mutated values (real validators): ' + what,
+                                              'bound': '%s generated schemas, fixed seeds' % n, 'pairs': out.get('tried'), 'disagreeing_instances': len(failing),
+                                              'recorded_as_known_F21': len(failing) - len(new), 'new': len(new)}]}
+        if kind == 'mirror' and failing and len(new) < len(failing):
+            ks = sorted(f for f in failing if f in known)
+            w = {'id': ks[0]}
+            res['violations'].append({
+                'unit': 'U5f', 'label': 'mirror:recorded-instances', 'fn': 'JSONValidator / CBORValidator',
+                'message': '%d recorded generated instances still disagree' % len(ks), 'clause': [], 'engine': 'replay', 'verifier_output': out.get('first', ''),
+                'fixed_witness': {'found': True, 'witness': w, 'real': out.get('first'), 'replay_args': ['u5f', 'replay', json.dumps(w)]}})
+        if new:
+            w = {'id': new[0]}
+            res['violations'].append({
+                'unit': 'U5f', 'label': 'mirror:json-cbor-same-verdict' if kind == 'mirror' else 'map:verdict-invariant-under-pair-permutation', 'fn': 'validators',
+                'message': '%d generated (schema, value) instances that are NOT recorded disagree (first: %s)' % (len(new), out.get('first', '')[:300]),
+                'clause': [], 'engine': 'replay', 'verifier_output': json.dumps(new[:20]),
+                'fixed_witness': {'found': True, 'witness': w, 'real': out.get('first'), 'replay_args': ['u5f', 'replay', json.dumps(w)]}})
+        return res
+    return run
+
+
 def extra_c10_members(prop, tier, seed):
     """Bounded stand-in (labelled, never counted) for the second clause of C10 on BOTH real validators: for every
     set of 2..3 members out of 9 with pairwise disjoint keys (literal text keys with ?, *, n*m occurrences, a literal
@@ -909,7 +945,7 @@ PROPS = {
     },
     'C10': {
         'vx': ['U6'],
-        'extra': [extra_c10_bounded, extra_c10_perm, extra_c10_members],
+        'extra': [extra_c10_bounded, extra_c10_perm, extra_c10_members, extra_gen_differential('order')],
         'witness': witness_u6,
         'technique': 'Verus contract (requires/ensures/decreases, loop invariant, proof hints) on the real Kuhn augmenting step + lemma for its caller',
         'level_text': 'Duplicate-key clause of C10 only ("each physical key/value pair must be accounted for by some member" - no pair is handed to two members, no member gets two pairs): Verus proves for the real augment_single_entry_assignment, for every compatibility matrix and every search state, that owners are compatible claims, pairs already visited keep their owner, failure leaves the assignment unchanged, success gives the searching claim exactly one new unvisited pair, no other claim ever owns two pairs, no claim appears from nowhere, matched claims stay matched; termination (decreasing count of unvisited pairs); index safety. A lemma derives for the calling loop that the assignment stays an injective matching. Completeness of the search (false => no perfect matching) is only cross-checked against brute force on small matrices (bounded, not counted). Order-independence of the verdict itself is outside both verifiers (it is produced by the validator visitor); a bounded stand-in runs all pair permutations of small maps through the real validator (labelled bounded) and found that the verdict IS order-dependent for members keyed by type - known finding F18, recorded instance by instance so that new instances are still reported. A second bounded stand-in permutes the MEMBERS of the schema (pairwise disjoint keys) together with the pairs, for both validators: the CBOR validator is order-independent there, the JSON validator is not (known finding F36, 94 recorded instances).',
@@ -931,7 +967,7 @@ PROPS = {
     },
     'C04': {
         'vx': ['U5', 'U7'],
-        'extra': [extra_u5_bounded('c04'), extra_c04_mirror],
+        'extra': [extra_u5_bounded('c04'), extra_c04_mirror, extra_gen_differential('mirror')],
         'witness': witness_u5('c04'),
         'technique': 'mirror lemma: the JSON and the CBOR copy of a duplicated pure helper meet the same Verus spec',
         'level_text': 'Mirror obligations only: the duplicated occurrence->(min,max) statement of the array matcher in json.rs and in cbor.rs are both proved equal to the same spec function, hence to each other, for every occurrence value. Agreement of the two validators verdicts cannot be decided deductively (relational property over two 4-6 kLoC visitors); bounded differential stand-ins run both validators on the same values (labelled bounded): the array matcher sweep and a ~320-schema x 12-value sweep, which found 182 disagreements recorded as known finding F21 (JSON `int` rejects 18446744073709551615 while CBOR accepts; CBOR `nint` accepts 0/5/10; JSON `uint` accepts -3).',
